@@ -280,7 +280,7 @@ FUZZ_IMPORTS = ['mwlib.parser.refine.uparser', 'mwlib.parser.refine.core', 'mwli
 
 
 def run_shard(ctx):
-    @ctx.settings(ctx.n(40000, 800000))
+    @ctx.settings(ctx.n(40000, 320000))
     @given(cases())
     def t(case):
         ctx.announce(case)
@@ -297,7 +297,7 @@ def run_shard(ctx):
         ctx.record(jdump(case), labels, nt, sample=dict(tag=case["tag"], context=case["context"], body=case["body"][:200], db=case["db"]))
 
     ctx.run_given(t)
-    ctx.fuzz_campaign("", (0, 320000))
+    ctx.fuzz_campaign("", (0, 120000))
 
     @ctx.settings(ctx.n(4000, 100000))
     @given(S.soup(16))
